@@ -321,7 +321,10 @@ where
     ) -> Result<bool> {
         if IF_NEEDED {
             let needs_init = self.account_info().owner().fast_eq(&System::ID)
-                || self.account_data()?[..size_of::<OwnerProgramDiscriminant<T>>()]
+                || self
+                    .account_data()?
+                    .get(..size_of::<OwnerProgramDiscriminant<T>>())
+                    .ok_or(ProgramError::AccountDataTooSmall)?
                     .iter()
                     .all(|x| *x == 0);
             if !needs_init {
